@@ -80,6 +80,7 @@ type Candidate struct {
 type PathResult struct {
 	Decis     []int64
 	End       string // "ok", "infeasible", "unsupported", "budget", "panic"
+	UF        bool   // the path's terms contain uninterpreted functions (math.Pow, calendar): its model need not be a real-world input
 	Why       string
 	Steps     int64
 	Queries   int
